@@ -33,5 +33,6 @@ PROPS = {
     "C09": {"jobs": [rapid("TestC09", 3000, 10000), enum("TestC09Truncations"), enum("TestC09TCPOptions")] +
             [fuzz("FuzzC09" + v) for v in ("icmp4", "icmp6", "udp4", "udp6", "tcp", "tcpparis", "sack", "Parser")]},
     "C10": {"jobs": [enum("TestC10Single"), rapid("TestC10Multi", 2500, 8000)]},
-    "C06": {"jobs": [rapid("TestC06", 1200, 8000), enum("TestC06AllTTLs")]},
+    "C06": {"jobs": [rapid("TestC06", 1200, 8000), enum("TestC06AllTTLs"), enum("TestC06UDP6ChecksumSearch")]},
+    "C19": {"jobs": [rapid("TestC19", 3000, 8000), enum("TestC19Extremes")]},
 }
